@@ -282,7 +282,7 @@ func init() {
 		// index layer: the shortcut is also the key of the shortcut index.  Every ordered
 		// list of <=3 rules whose patterns spell out or omit the scheme, through
 		// NetworkEngine.MatchAll for URL and hostname requests, against rule.Match.
-		idxRules := []string{"http://example.org^", "https://example.org^", "://example.org^", "ws://example.org^", "example.org^", "||example.org^", "|http://example.org/", "http://sub.example.org^", "p://example.org^", "example.org.|", ".org.|"}
+		idxRules := []string{"http://example.org^", "https://example.org^", "://example.org^", "ws://example.org^", "example.org^", "||example.org^", "|http://example.org/", "http://sub.example.org^", "p://example.org^", "example.org.|", ".org.|", "/sub.", "/a.sub."}
 		var idxReqs []*rules.Request
 		for _, u := range []string{"http://example.org/", "https://example.org/a", "ws://example.org", "http://sub.example.org/?u=http://example.org/", "http://x.test/?r=https://example.org^", "HTTP://EXAMPLE.ORG/A", "https://Example.Org/", "http://SUB.example.org/?U=HTTP://EXAMPLE.ORG/"} {
 			idxReqs = append(idxReqs, rules.NewRequest(u, "", rules.TypeScript))
@@ -290,6 +290,7 @@ func init() {
 		for _, h := range []string{"example.org", "sub.example.org", "a.sub.example.org", "example.org."} {
 			idxReqs = append(idxReqs, rules.NewRequestForHostname(h))
 		}
+		var idxEvals atomic.Int64
 		// a bucket of eighteen rules that share a leading literal and differ later
 		{
 			var lines []string
@@ -307,6 +308,25 @@ func init() {
 				}
 			}
 		}
+		// the page's own rules are looked up under the page's address, whatever the sub-request's address is
+		for _, exc := range []string{"@@||page.test^$urlblock", "@@||page.test/app^$document", "@@/page.test\\/(app|p)/$genericblock"} {
+			for _, l := range idxRules {
+				en := urlfilter.NewEngine(stringStorage(l + "\n" + exc + "\n"))
+				for _, q := range idxReqs {
+					if q.IsHostnameRequest {
+						continue
+					}
+					for _, src := range []string{"http://page.test/app/", "https://PAGE.test/app/?x=1"} {
+						m := en.MatchRequest(rules.NewRequest(q.URL, src, rules.TypeScript))
+						idxEvals.Add(1)
+						if m.DocumentRule == nil || m.DocumentRule.RuleText != exc {
+							c.Run.Violate(ev.Violation{Pred: "shortcut-index-finds-what-matches", Sig: map[string]any{"exception": exc, "rule": l, "url": q.URL, "source": src, "engine": "Engine.MatchRequest"},
+								What: fmt.Sprintf("Engine over [%s, %s], request %s from %s: DocumentRule = %s, the exception matches the page (shortcut %q is in the page's address)", l, exc, q.URL, src, renderNetText(m.DocumentRule), mustNetRule(exc, 0).Shortcut), Replay: map[string]any{"rule": exc, "class": "index"}})
+						}
+					}
+				}
+			}
+		}
 		var idxLists [][]int
 		for size := 1; size <= 3; size++ {
 			enum.Sequences(len(idxRules), size, func(s []int) bool {
@@ -314,13 +334,13 @@ func init() {
 				return true
 			})
 		}
-		var idxEvals atomic.Int64
 		c.parallel(len(idxLists), func(li int) {
 			var lines []string
 			for _, i := range idxLists[li] {
 				lines = append(lines, idxRules[i])
 			}
 			ne := urlfilter.NewNetworkEngine(stringStorage(joinLines(lines) + "\n"))
+			de := urlfilter.NewDNSEngine(stringStorage(joinLines(lines) + "\n"))
 			for _, q := range idxReqs {
 				idxEvals.Add(1)
 				var want []string
@@ -347,6 +367,14 @@ func init() {
 				if !eqStrings(got, sortedSet(want)) {
 					c.Run.Violate(ev.Violation{Pred: "shortcut-index-finds-what-matches", Sig: map[string]any{"lines": lines, "url": q.URL, "hostname_request": q.IsHostnameRequest},
 						What: fmt.Sprintf("engine over %v, request %s (hostname request: %v): MatchAll returns %v, the rules that match are %v", lines, q.URL, q.IsHostnameRequest, got, sortedSet(want)), Replay: map[string]any{"rule": lines[0], "class": "index"}})
+				}
+				// the DNS engine files the same rules (none of them carries a modifier) under the same shortcuts
+				if q.IsHostnameRequest && de != nil {
+					res, _ := de.Match(q.Hostname)
+					if gotD := sortedSet(netTexts(res.NetworkRules)); !eqStrings(gotD, sortedSet(want)) {
+						c.Run.Violate(ev.Violation{Pred: "shortcut-index-finds-what-matches", Sig: map[string]any{"lines": lines, "hostname": q.Hostname, "engine": "dns"},
+							What: fmt.Sprintf("DNSEngine over %v, Match(%q): NetworkRules %v, the rules that match the host name are %v", lines, q.Hostname, gotD, sortedSet(want)), Replay: map[string]any{"rule": lines[0], "class": "index"}})
+					}
 				}
 			}
 		})
